@@ -17,16 +17,21 @@ from harness import c20_model as model
 
 ID = "C20"
 
-RULE = ("Hypothesis-built projects of 2-4 files (Python; a JavaScript file in ~25 % of cases) with 6-10 methods "
-        "(top-level functions, instance/static/class methods, decorated and async functions, nested functions; duplicate "
-        "names across files; names / file names that are substrings of one another), each method with its own "
+RULE = ("Hypothesis-built projects of 2-4 files (Python; plus a JavaScript file in ~25 % and a Java file in ~20 % of the "
+        "cases; same base name in two directories, file names that are substrings of one another, names with space / dash / "
+        "dot / non-ASCII) with 6-10 methods (top-level functions, instance/static/class methods, decorated and async "
+        "functions, nested functions, JS functions / async functions / static class methods, Java methods with modifiers; "
+        "duplicate method names across files, names that are substrings of one another), each method with its own "
         "line-unique parameter-source -> sink pair, a by-construction call graph (same-file calls, from-imports, "
-        "self./Class./object calls, cycles) and optional top-level code (=> %unit_init) x entry rule sets of 0-4 rules "
-        "(+duplicates) over lang / unit_name / unit_path / unit_id / method_id / method_list / attrs spread over "
-        "entry.yaml, <x>-entry.yaml files in sub-directories, decoy and empty files. Each case = one full `lian run` "
-        "in-process (non-quiet, so that the 'Analyzing' console lines and taint_data_flow.json exist). Non-trivial = the "
-        "reference matcher selects a non-empty proper subset of the project's methods (initialisers included); "
-        "distinct by hash of (files, settings).")
+        "self./Class./object calls, cycles and recursion) and optional top-level code (plain or under `if __name__ == "
+        "'__main__'`, => %unit_init) x entry rule sets of 0-4 rules (+duplicates): 75 % built around a target method from "
+        "matching values of a random subset of lang / unit_name / unit_path / unit_id / method_id / method_list / attrs with, "
+        "in 35 %, one field replaced by a near miss; 25 % unconstrained draws; spread over entry.yaml, <x>-entry.yaml files "
+        "in sub-directories, decoy files that must not be read, empty / comment-only files, and (rarely) a rule with an "
+        "unknown key or a rule file that is not a list. Each case = one full `lian run` in-process, non-quiet, so that the "
+        "'Analyzing' console lines and taint/taint_data_flow.json exist (rules with unit_id / method_id: a `lian lang` "
+        "pre-pass reads the ids). Non-trivial = the reference matcher selects a non-empty proper subset of the project's "
+        "methods (initialisers included); distinct by hash of (files, settings).")
 
 ASSUMPTIONS = [
     "reference matcher: lang / unit_id / method_id by equality, unit_name = substring of the file's base name, unit_path = "
